@@ -42,3 +42,18 @@ Lemma error_lattice_facts :
   exc_sub XEndOfStreamError XSubstrateUnderrunError = true
   /\ exc_sub XSubstrateUnderrunError XPyAsn1Error = true.
 Proof. split; vm_compute; reflexivity. Qed.
+
+(* C15: the strict entries *)
+Definition is_string_key (k: tkey) : bool := match k with KOcts | KBits | KStr _ => true | _ => false end.
+Definition strings_primitive_only (m: list (tkey * dec_codec * dec_flags)) : bool :=
+  forallb (fun e => implb (is_string_key (fst (fst e))) (negb (df_constructed (snd e)))) m
+  && existsb (fun e => is_string_key (fst (fst e))) m.
+Definition strict_bool (m: list (tkey * dec_codec * dec_flags)) : bool :=
+  match lookup3 KBool m with Some (DcBoolCer, _) => true | _ => false end.
+
+Lemma strict_tables_facts :
+  strings_primitive_only (dec_tag_map DER) = true /\ strings_primitive_only (dec_type_map DER) = true
+  /\ support_indef DER = false
+  /\ strict_bool (dec_tag_map DER) = true /\ strict_bool (dec_type_map DER) = true
+  /\ strict_bool (dec_tag_map CER) = true /\ strict_bool (dec_type_map CER) = true.
+Proof. repeat split; vm_compute; reflexivity. Qed.
